@@ -18,8 +18,23 @@ def repo_root():
     return os.environ.get("VERIF_REPO", "/repo")
 
 
+# functions a model mirrors although the property's anchors do not name them (added when a builder extended the model)
+EXTRA = {
+    "C07": [("gapic/schema/wrappers.py", "Method._client_output")],
+    "C19": [("gapic/schema/wrappers.py", "MessageType.recursive_field_types"), ("gapic/schema/wrappers.py", "MessageType.recursive_resource_fields"),
+            ("gapic/schema/wrappers.py", "CommonResource.build"), ("gapic/schema/wrappers.py", "CommonResource.message_type")],
+    "C01": [("gapic/schema/api.py", "API.subpackages")],
+    "C02": [("gapic/schema/api.py", "API.subpackages")],
+    "C11": [("gapic/schema/api.py", "API.subpackages")],
+}
+
+
 def _anchor_items(prop):
-    """[(file, qualname)] named by the property's anchors"""
+    """[(file, qualname)] named by the property's anchors (plus EXTRA)"""
+    return _anchor_items0(prop) + [x for x in EXTRA.get(prop, []) if x not in _anchor_items0(prop)]
+
+
+def _anchor_items0(prop):
     for line in open(os.path.join(ROOT, "properties.jsonl")):
         p = json.loads(line)
         if p["id"] != prop:
